@@ -1,6 +1,6 @@
 (* C12 - tie (T): the model's list of variants is what the code of /repo computes. *)
 From Coq Require Import List Arith Bool.
-From Verif Require Import Discr DiscrSpec DiscrProofs PyK_discr K12Defs K12Proofs DiscrEmit DiscrEmitProofs.
+From Verif Require Import Discr DiscrSpec DiscrProofs PyK_discr K12Defs K12Proofs DiscrEmit DiscrEmitProofs C12RegName C12RegNameProofs.
 From VerifGen Require Import K12.
 Import ListNotations.
 
@@ -81,3 +81,16 @@ Example C12_code_variants_nonvacuous :
   iter_all_subclasses (S (length (defs ops))) (subclasses_of (defs ops)) 0 = [1; 3; 4; 2; 3]
   /\ variants (defs ops) (Site [0] true true false false false false 0 0 false) = [1; 3; 4; 2; 3; 0].
 Proof. vm_compute. split; reflexivity. Qed.
+
+(* (T) WHICH POSITIONS SHARE A REGISTRY.  The model keys its registries by site.  In the code a registry is a holder
+   attribute found by NAME; K12 translates `_get_variants_attr` of both builders (annotated position / class level) into the
+   parts of that name.  An annotated position's name contains a token that is fresh per builder instance (random_hex,
+   memoised in an instance slot): two positions - in one field or in two, with equal or different Discriminator
+   settings - never share a registry; the class-level name is one constant per class (shared by the per-format
+   dispatchers of that class, model state `regs` keyed by the class). *)
+Theorem C12_code_registry_names :
+  (forall f1 f2 r1 r2, r1 <> r2 -> render annotated_variants_attr f1 r1 <> render annotated_variants_attr f2 r2)
+  /\ variants_attr_per_instance = true
+  /\ (forall f1 f2 r1 r2, render class_variants_attr f1 r1 = render class_variants_attr f2 r2).
+Proof. exact code_registry_names. Qed.
+Print Assumptions C12_code_registry_names.
